@@ -456,7 +456,7 @@ def rule_function_labels(repo: Repo, chk: Check, rule: str):
                 if enclosing_def(e) is not fn:
                     continue
                 if isinstance(e, ast.BinOp) and isinstance(e.op, ast.Add) and isinstance(e.right, ast.Constant) and isinstance(e.right.value, str) \
-                        and e.right.value not in ("", ":") and not isinstance(getattr(e, "parent", None), ast.BinOp) or \
+                        and e.right.value != "" and not isinstance(getattr(e, "parent", None), ast.BinOp) or \
                         isinstance(e, ast.JoinedStr) and len(e.values) >= 2 and isinstance(e.values[0], ast.FormattedValue):
                     if cfg is None:
                         cfg, rd = fn_ctx(fn)
